@@ -24,6 +24,236 @@ DM = "gemclus.data.synthetic_data"
 FUNCS = ["draw_gmm", "multivariate_student_t", "gstm", "celeux_one", "celeux_two"]
 
 
+def student_construction(pm, ctx, u):
+    from .. import e8_index as X8
+    from ..e8_index import Poly, Unsupported, mk_var
+    from ..e8_numpy import TermInterp, input_array, TArr, _MISSING, ph
+    f = u.func("multivariate_student_t")
+    params = func_params(f)
+    if params[:4] != ["n", "loc", "scale", "df"]:
+        ctx.unrecognised("C20-f", "multivariate_student_t", f"signature {params}")
+        return
+    X8.POSITIVE_VARS.add("u_chi2")
+    draws = []
+
+    def hook(I, c, fn):
+        name = fn.split(".")[-1]
+        if fn == "check_array":
+            return I.ev(c.args[0])
+        if fn == "check_random_state":
+            return "RNG"
+        if isinstance(c.func, ast.Attribute) and isinstance(c.func.value, ast.Name) and I.env.get(c.func.value.id) == "RNG":
+            args = [I.ev(a) for a in c.args]
+            kw = {k.arg: I.ev(k.value) for k in c.keywords}
+            draws.append((name, args, kw, c))
+            if name == "multivariate_normal":
+                return input_array("z", ["N", "D"])
+            if name == "chisquare":
+                return input_array("u_chi2", ["N"])
+            raise Unsupported("draw " + name)
+        return _MISSING
+    env = {"n": Poly.sym("N"), "loc": input_array("loc", ["D"]), "scale": input_array("scale", ["D", "D"]), "df": TArr((), Poly.sym("df")), "random_state": None}
+    I = TermInterp(env, {})
+    I.call_hook = hook
+    site = "multivariate_student_t: construction"
+    try:
+        res = I.run(f)
+    except Unsupported as e:
+        ctx.unrecognised("C20-f", site, f"outside the translated subset: {e}")
+        return
+    if not isinstance(res, TArr) or tuple(res.shape) != ("N", "D"):
+        ctx.unrecognised("C20-f", site, f"result {res!r}")
+        return
+    from ..e8_index import mk_pow
+    from fractions import Fraction
+    ref = mk_pow(Poly.sym("df"), Fraction(1, 2)) * mk_pow(Poly.atom(mk_var("u_chi2", (ph("N", 0),))), Fraction(-1, 2)) * Poly.atom(mk_var("z", (ph("N", 0), ph("D", 1)))) \
+        + Poly.atom(mk_var("loc", (ph("D", 1),)))
+    if res.term == ref:
+        ctx.ok("C20-f", site, "X[i] = loc + sqrt(df / u[i]) * z[i]")
+    else:
+        ctx.violation("C20-f", u.relpath, "multivariate_student_t", "return X", f"the samples are {res.term!r}, not loc + sqrt(df/u) * z: they do not follow the "
+                      f"Student-t distribution with df degrees of freedom", line=f.lineno, site=site)
+    # the two draws
+    mvn = [d for d in draws if d[0] == "multivariate_normal"]
+    chi = [d for d in draws if d[0] == "chisquare"]
+    site = "multivariate_student_t: Gaussian draw"
+    if len(mvn) == 1:
+        name, args, kw, c = mvn[0]
+        mean = args[0] if args else kw.get("mean")
+        cov = args[1] if len(args) > 1 else kw.get("cov")
+        size = args[2] if len(args) > 2 else kw.get("size")
+        okm = isinstance(mean, TArr) and mean.term.is_zero() and tuple(mean.shape) == ("D",)
+        okc = isinstance(cov, TArr) and cov.term == input_array("scale", ["D", "D"]).term
+        oks = isinstance(size, Poly) and size == Poly.sym("N")
+        if okm and okc and oks:
+            ctx.ok("C20-f", site, "z ~ N(0, scale), n rows")
+        else:
+            ctx.violation("C20-f", u.relpath, "multivariate_student_t", norm_src(c)[:120], "the Gaussian factor is not n draws of N(0, scale)" +
+                          ("" if okm else " (mean not zero)") + ("" if okc else " (covariance is not the scale matrix)") + ("" if oks else " (size is not n)"), line=c.lineno, site=site)
+    else:
+        ctx.unrecognised("C20-f", site, f"{len(mvn)} multivariate normal draws")
+    site = "multivariate_student_t: chi-square draw"
+    if len(chi) == 1:
+        name, args, kw, c = chi[0]
+        dfa = args[0] if args else kw.get("df")
+        size = args[1] if len(args) > 1 else kw.get("size")
+        okd = isinstance(dfa, TArr) and dfa.term == Poly.sym("df")
+        oks = isinstance(size, Poly) and size == Poly.sym("N")
+        if okd and oks:
+            ctx.ok("C20-f", site, "u ~ chi2(df), one per sample")
+        else:
+            ctx.violation("C20-f", u.relpath, "multivariate_student_t", norm_src(c)[:120], "the mixing variable is not one chi-square(df) draw per sample", line=c.lineno, site=site)
+    else:
+        ctx.unrecognised("C20-f", site, f"{len(chi)} chi-square draws")
+
+
+def dependence_structure(pm, ctx, u):
+    """data-flow of the returned columns of celeux_one / celeux_two (names resolved through unique definitions)"""
+    from ..match import resolve_expr, cfg_node
+    for fn, informative, dependents, noises in (("celeux_one", "good_variables", [], ["noise"]), ("celeux_two", "good_variables", ["X3_11"], ["X12_14"])):
+        f = u.func(fn)
+        cfg = CFG(f)
+        defs = {s_.targets[0].id: s_ for s_ in f.body if isinstance(s_, ast.Assign) and len(s_.targets) == 1 and isinstance(s_.targets[0], ast.Name)}
+        gm = [s_ for s_ in f.body if isinstance(s_, ast.Assign) and isinstance(s_.value, ast.Call) and call_name(s_.value) == "draw_gmm" and isinstance(s_.targets[0], ast.Tuple)]
+        site = f"{fn}: informative variables and labels come from one draw_gmm call"
+        if len(gm) != 1 or [norm_src(e) for e in gm[0].targets[0].elts][:1] != [informative]:
+            ctx.unrecognised("C20-h", site, "draw_gmm call")
+            continue
+        ylab = norm_src(gm[0].targets[0].elts[1])
+        rets = [n for n in ast.walk(f) if isinstance(n, ast.Return)]
+        if len(rets) == 1 and isinstance(rets[0].value, ast.Tuple) and norm_src(rets[0].value.elts[1]) == ylab:
+            ctx.ok("C20-h", site, f"({informative}, {ylab})")
+        else:
+            ctx.violation("C20-h", u.relpath, fn, norm_src(rets[0])[:100] if rets else "return", "the returned labels are not those of the draw that produced the informative variables",
+                          line=f.lineno, site=site)
+
+        def deps(name, seen=None):
+            seen = seen or set()
+            if name in seen or name not in defs:
+                return {name}
+            seen.add(name)
+            out = {name}
+            for n in ast.walk(defs[name].value):
+                if isinstance(n, ast.Name) and isinstance(n.ctx, ast.Load):
+                    out |= deps(n.id, seen)
+            return out
+        for nv in noises:
+            site = f"{fn}: {nv} is independent of the labels"
+            if nv not in defs:
+                ctx.unrecognised("C20-h", site, f"no variable {nv}")
+                continue
+            d = deps(nv)
+            if informative in d or ylab in d:
+                ctx.violation("C20-h", u.relpath, fn, norm_src(defs[nv])[:140], f"the noise variables {nv} are computed from {'the informative variables' if informative in d else 'the labels'}",
+                              line=defs[nv].lineno, site=site)
+            else:
+                ctx.ok("C20-h", site)
+        for dv in dependents:
+            site = f"{fn}: {dv} is affine in the informative variables"
+            if dv not in defs:
+                ctx.unrecognised("C20-h", site, f"no variable {dv}")
+                continue
+            val = defs[dv].value
+            terms = []
+
+            def flat(e):
+                if isinstance(e, ast.BinOp) and isinstance(e.op, ast.Add):
+                    flat(e.left)
+                    flat(e.right)
+                else:
+                    terms.append(e)
+            flat(val)
+            lin = [t for t in terms if isinstance(t, ast.BinOp) and isinstance(t.op, ast.MatMult) and norm_src(t.left) == informative]
+            others = [t for t in terms if t not in lin]
+            if len(lin) == 1 and not any(informative in {n.id for n in ast.walk(t) if isinstance(n, ast.Name)} for t in others) and \
+                    any(isinstance(t, ast.Name) and "noise" in deps(t.id) | {t.id} or (isinstance(t, ast.Name) and any(
+                        isinstance(c, ast.Call) and isinstance(c.func, ast.Attribute) and c.func.attr in DRAWS for c in ast.walk(defs[t.id].value))) for t in others if isinstance(t, ast.Name) and t.id in defs):
+                ctx.ok("C20-h", site, f"offset + {informative} @ {norm_src(lin[0].right)} + noise")
+            elif not lin:
+                ctx.violation("C20-h", u.relpath, fn, norm_src(defs[dv])[:140], f"{dv} does not contain the linear term {informative} @ B: the dependent variables no longer depend "
+                              f"linearly on the informative ones", line=defs[dv].lineno, site=site)
+            else:
+                ctx.unrecognised("C20-h", site, f"`{norm_src(val)[:80]}`")
+        # returned matrix starts with the informative variables
+        site = f"{fn}: the informative variables are the first columns"
+        if len(rets) == 1 and isinstance(rets[0].value, ast.Tuple):
+            x = rets[0].value.elts[0]
+            if isinstance(x, ast.Call) and (call_name(x) or "").split(".")[-1] in ("concatenate", "hstack") and x.args and isinstance(x.args[0], (ast.List, ast.Tuple)) \
+                    and x.args[0].elts and norm_src(x.args[0].elts[0]) == informative:
+                ctx.ok("C20-h", site)
+            else:
+                ctx.unrecognised("C20-h", site, norm_src(x)[:60])
+
+
+def gstm_labels(pm, ctx, u):
+    f = u.func("gstm")
+    locs = [s_ for s_ in f.body if isinstance(s_, ast.Assign) and isinstance(s_.targets[0], ast.Name) and s_.targets[0].id == "locations"]
+    site = "gstm: label of the Student-t component"
+    if not locs:
+        ctx.unrecognised("C20-g", site, "no `locations` table")
+        return
+    lists = [n for n in ast.walk(locs[0].value) if isinstance(n, ast.List) and n.elts and all(isinstance(e, ast.List) for e in n.elts)]
+    if not lists:
+        ctx.unrecognised("C20-g", site, "locations is not a literal table")
+        return
+    nloc = len(lists[0].elts)
+    st_call = [c for c in ast.walk(f) if isinstance(c, ast.Call) and call_name(c) == "multivariate_student_t"]
+    gm_call = [c for c in ast.walk(f) if isinstance(c, ast.Call) and call_name(c) == "draw_gmm"]
+    if len(st_call) != 1 or len(gm_call) != 1:
+        ctx.unrecognised("C20-g", site, "calls of draw_gmm / multivariate_student_t")
+        return
+
+    def row_index(e):
+        if isinstance(e, ast.Subscript) and norm_src(e.value) == "locations":
+            i = e.slice
+            if isinstance(i, ast.UnaryOp) and isinstance(i.op, ast.USub) and isinstance(i.operand, ast.Constant):
+                return nloc - i.operand.value
+            if isinstance(i, ast.Constant) and isinstance(i.value, int):
+                return i.value if i.value >= 0 else nloc + i.value
+        return None
+
+    def row_range(e):
+        if isinstance(e, ast.Subscript) and norm_src(e.value) == "locations" and isinstance(e.slice, ast.Slice) and e.slice.step is None:
+            def val(x, d):
+                if x is None:
+                    return d
+                if isinstance(x, ast.Constant):
+                    return x.value if x.value >= 0 else nloc + x.value
+                if isinstance(x, ast.UnaryOp) and isinstance(x.op, ast.USub) and isinstance(x.operand, ast.Constant):
+                    return nloc - x.operand.value
+                return None
+            lo, hi = val(e.slice.lower, 0), val(e.slice.upper, nloc)
+            if lo is not None and hi is not None:
+                return list(range(lo, hi))
+        return None
+    k_student = row_index(st_call[0].args[1]) if len(st_call[0].args) > 1 else None
+    rows_gauss = row_range(gm_call[0].args[1]) if len(gm_call[0].args) > 1 else None
+    # the label constant: y = concatenate([y_gaussian, np.ones(n_student) * c])
+    ys = [s_ for s_ in f.body if isinstance(s_, ast.Assign) and isinstance(s_.targets[0], ast.Name) and s_.targets[0].id == "y"]
+    label = None
+    if ys:
+        for n in ast.walk(ys[0].value):
+            if isinstance(n, ast.BinOp) and isinstance(n.op, ast.Mult):
+                for a, b in ((n.left, n.right), (n.right, n.left)):
+                    if isinstance(a, ast.Call) and (call_name(a) or "").endswith("ones") and isinstance(b, ast.Constant) and isinstance(b.value, (int, float)):
+                        label = b.value
+            if isinstance(n, ast.Call) and (call_name(n) or "").endswith("full") and len(n.args) >= 2 and isinstance(n.args[1], ast.Constant):
+                label = n.args[1].value
+    if k_student is None or rows_gauss is None or label is None:
+        ctx.unrecognised("C20-g", site, f"student row {k_student}, gaussian rows {rows_gauss}, label {label}")
+        return
+    if rows_gauss != list(range(len(rows_gauss))):
+        ctx.violation("C20-g", u.relpath, "gstm", norm_src(gm_call[0])[:120], f"the Gaussian components use rows {rows_gauss} of the table but draw_gmm labels them 0..{len(rows_gauss) - 1}",
+                      line=gm_call[0].lineno, site="gstm: Gaussian labels")
+    else:
+        ctx.ok("C20-g", "gstm: Gaussian labels index their rows of the location table", f"rows {rows_gauss}")
+    if label == k_student and k_student not in rows_gauss:
+        ctx.ok("C20-g", site, f"label {label} = row of its location, not a Gaussian label")
+    else:
+        ctx.violation("C20-g", u.relpath, "gstm", norm_src(ys[0])[:140], f"the Student-t samples are drawn around location row {k_student} but labelled {label}"
+                      + (" (a Gaussian component's label)" if label in rows_gauss else ""), line=ys[0].lineno, site=site)
+
+
 def run(pm, ctx):
     u = pm.unit(DM)
     ctx.rule("C20-a", "identical integer seeds must give identical output: all randomness flows from one seeded generator", floor=10)
@@ -31,6 +261,14 @@ def run(pm, ctx):
     ctx.rule("C20-c", "each sample is drawn from the component named by its label", floor=2)
     ctx.rule("C20-d", "a documented variance must not be used as a standard deviation", floor=2)
     ctx.rule("C20-e", "parameter sets that do not describe a mixture are rejected before sampling", floor=6)
+    ctx.rule("C20-f", "multivariate_student_t builds loc + sqrt(df / u) * z with z ~ N(0, scale) and u ~ chi2(df): the construction that defines "
+             "the multivariate Student-t with df degrees of freedom", floor=3)
+    student_construction(pm, ctx, u)
+    ctx.rule("C20-g", "gstm: the Student-t samples carry the index of the location they were drawn around, distinct from the Gaussian labels", floor=2)
+    gstm_labels(pm, ctx, u)
+    ctx.rule("C20-h", "informative variables come from the labelled mixture, dependent variables are affine in them plus noise, noise variables "
+             "do not depend on the labels", floor=4)
+    dependence_structure(pm, ctx, u)
     # ------------------------------------------------------------------ a
     for fn in FUNCS:
         f = u.func(fn)
@@ -260,4 +498,8 @@ def controls(pm, tier):
     mut("    if np.sum(pvals) != 1:\n        raise ValueError(\"Proportions of components do not add up to one.\")\n", "", "C20-e", "unnormalised proportions accepted")
     mut("    y = generator.choice(K, p=pvals, size=(n,))\n", "    y = generator.choice(K, p=pvals, size=(n,))\n    y = np.sort(y)\n", "C20-c", "placeholder")
     out.pop()
+    mut("    X = np.sqrt(df / u) * nx + loc.reshape((1, -1))", "    X = np.sqrt(u / df) * nx + loc.reshape((1, -1))", "C20-f", "chi-square ratio inverted")
+    mut("    u = generator.chisquare(df, n).reshape((-1, 1))", "    u = generator.chisquare(n, n).reshape((-1, 1))", "C20-f", "degrees of freedom of the mixing variable")
+    mut("    nx = generator.multivariate_normal(np.zeros(d), scale, size=n)", "    nx = generator.multivariate_normal(loc, scale, size=n)", "C20-f", "location added twice")
+    mut("    y = np.concatenate([y_gaussian, np.ones(n_student) * 3])", "    y = np.concatenate([y_gaussian, np.ones(n_student) * 2])", "C20-g", "Student-t samples labelled as a Gaussian component")
     return out
